@@ -129,6 +129,13 @@ def driver_lock_not_released_when_user_code_raises():
     edit(T, "    if result[0]:\n        return _finalize_parse_info(text, result[1], result[2], fullparse)\n    else:\n        pos = result[2]\n        message = result[1](text, pos)",
          "    _run_lock.release()\n    if result[0]:\n        return _finalize_parse_info(text, result[1], result[2], fullparse)\n    else:\n        pos = result[2]\n        message = result[1](text, pos)")
 
+@mutant
+def linemap_cached_for_50ms_by_length():
+    # a time-to-live makes the stale entry depend on the clock: under the simulator the clock is virtual
+    # (a function of the step counter and of injected clock jumps), so the failing run replays exactly
+    edit(T, "def _map_index_to_line_and_column(text):\n    line_numbers = []", "import time as _time\n_LINEMAP = {}\n\ndef _map_index_to_line_and_column(text):\n    hit = _LINEMAP.get(len(text))\n    if hit is not None and _time.monotonic() - hit[0] < 0.05:\n        return hit[1]\n    line_numbers = []")
+    edit(T, "        column_numbers.append(current_column)\n\n    return line_numbers, column_numbers", "        column_numbers.append(current_column)\n\n    _LINEMAP[len(text)] = (_time.monotonic(), (line_numbers, column_numbers))\n    return line_numbers, column_numbers")
+
 if __name__ == '__main__':
     fresh()
     only = sys.argv[2:] 
